@@ -124,7 +124,10 @@ def matrix(seed, tier="quick", par=3):
         rc, out = sh("./check %s %s" % (cid, tier), cwd=ROOT, env=dict(ENV, VERIF_REPO=wt))
         sigs = sorted(set(l.strip().split("signature: ", 1)[1] for l in out.splitlines() if "signature: " in l))
         fired = rc == 1 and "VIOLATION property=" in out
-        return cid, {"tier": tier, "fired": fired, "exit": rc, "signatures": sigs[:8], "wall_s": round(time.time() - t0, 1)}
+        res = {"tier": tier, "fired": fired, "exit": rc, "signatures": sigs[:8], "wall_s": round(time.time() - t0, 1)}
+        if rc not in (0, 1):
+            res["tail"] = out[-1500:]
+        return cid, res
     try:
         apply(d, wt)
         with ThreadPoolExecutor(par) as ex:
